@@ -225,6 +225,55 @@ def gen_param_scenario(rng):
     return {"ver": rng.choice([2, 3, 4]), "bpcount": 3, "start": 1, "accounts": accounts, "ops": ops}
 
 
+def gen_revote_scenario(rng, offset=None):
+    """directed: stake, vote (BP and, from V2, a parameter issue), FULL unstake after the lock period
+    (the ballots are refreshed to amount 0: record present, amount empty), stake again after another
+    lock period, then re-vote at `offset` blocks around the end of the voting delay of that second
+    stake (-1: must be refused, 0 / +1: accepted).  One account votes with an empty candidate list
+    (its zero-amount BP record is stored as the empty string, i.e. disappears)."""
+    ver = rng.choice([1, 2, 3, 4])
+    offset = rng.choice([-2, -1, 0, 1, -DELAY + 1, -DELAY // 2]) if offset is None else offset
+    nacc = rng.randrange(2, 4)
+    accounts = [{"addr": addr(i).hex(), "bal": str(20 * S)} for i in range(nacc)]
+    ops, no = [], 1
+    for w in range(nacc):
+        ops.append({"op": "stake", "who": w, "amt": str(rng.choice([S, 2 * S]))})
+    no += 1
+    ops.append({"op": "block", "no": no})
+    for w in range(nacc):
+        cs = [] if (w == nacc - 1 and rng.random() < 0.5) else [cand(rng.randrange(3)).hex() for _ in range(rng.randrange(1, 3))]
+        ops.append({"op": "votebp", "who": w, "cands": cs})
+        if ver >= 2 and rng.random() < 0.6:
+            ops.append({"op": "votedao", "who": w, "id": "GASPRICE", "val": ["60000000000"]})
+    no += DELAY
+    ops.append({"op": "block", "no": no})
+    stakes = {}
+    for w in range(nacc):
+        ops.append({"op": "unstake", "who": w, "amt": "FULL%d" % w})
+    no += DELAY + rng.choice([0, 3])
+    ops.append({"op": "block", "no": no})
+    if rng.random() < 0.3:
+        ops.append({"op": "reload"})
+    for w in range(nacc):
+        ops.append({"op": "stake", "who": w, "amt": str(rng.choice([S, 3 * S]))})
+    no += DELAY + offset
+    ops.append({"op": "block", "no": no})
+    for w in range(nacc):
+        ops.append({"op": "votebp", "who": w, "cands": [cand(rng.randrange(3)).hex()]})
+        if ver >= 2:
+            ops.append({"op": "votedao", "who": w, "id": rng.choice(["GASPRICE", "BPCOUNT"]), "val": [rng.choice(["60000000000", "5"])]})
+    ops.append({"op": "block", "no": no + 1})
+    # resolve the full-unstake amounts: what each account staked in the first round
+    first = {}
+    for o in ops:
+        if o["op"] == "stake" and o["who"] not in first:
+            first[o["who"]] = o["amt"]
+    for o in ops:
+        if o["op"] == "unstake":
+            o["amt"] = first[o["who"]]
+    return {"ver": ver, "bpcount": 3, "start": 1, "accounts": accounts, "ops": ops}
+
+
 def exhaustive_family(length=3):
     """thorough tier: after a fixed prefix (two stakers who voted, lock periods over) every
     sequence of `length` operations over a 9-letter alphabet (partial/full unstakes that shrink
